@@ -1,12 +1,12 @@
 (* Codec.v — every key is addressable (C16): the escapings a caller uses for the three spellings of a
    member name are inverted by the library's three unescape routines (coq/Text.v), for EVERY key. *)
 From JP Require Import Slice Text.
+From JP Require Export KeyDefs.
 From Coq Require Import Lia.
 Local Open Scope N_scope.
 Open Scope list_scope.
 
 (* ---------- hexadecimal digits ---------- *)
-Definition hexd (n : N) : N := if n <? 10 then 48 + n else 87 + n.
 Lemma hex_val_hexd n : n < 16 -> hex_val (hexd n) = Some n.
 Proof.
   intros H. unfold hexd, hex_val.
@@ -20,11 +20,6 @@ Proof.
 Qed.
 
 (* ---------- JSON-style escaping inside double quotes ---------- *)
-Definition esc_json_byte (q b : N) : list N :=
-  if b =? q then [92; b]
-  else if b =? 92 then [92; 92]
-  else if b <? 32 then [92; 117; 48; 48; hexd (b / 16); hexd (b mod 16)]
-  else [b].
 Definition esc_double (bs : list N) : list N := flat_map (esc_json_byte 34) bs.
 
 Lemma hex4_small b : b < 32 -> hex4 48 48 (hexd (b / 16)) (hexd (b mod 16)) = Some b.
